@@ -2,6 +2,7 @@ package expressions
 
 import (
 	"strconv"
+	"strings"
 
 	"github.com/nyaruka/goflow/envs"
 	"github.com/nyaruka/goflow/excellent"
@@ -53,4 +54,37 @@ func VerifC17_WordIndex() {
 	if inRange {
 		zzverif.Assert(everr == nil && out == want, "the migrated WORD call does not evaluate to the word the legacy call denotes")
 	}
+}
+
+// VerifC17_Fixed: "re-shaped functions keep their … argument order": legacy
+// FIXED(number, places, no_commas) formats with thousands separators unless
+// its third argument is TRUE (the legacy engine's outputs in
+// testdata/legacy_tests.json: FIXED(1234.5678, 3, TRUE) is 1234.568); the new
+// format_number(number, places, humanize) uses separators unless its third
+// argument is false.  For places 0..3 (an unknown digit) and the third
+// argument absent, TRUE or FALSE, the migrated template evaluates to the text
+// the legacy template denotes.
+// cover: flag-absent, no-commas, with-commas
+func VerifC17_Fixed() {
+	places := int(zzverif.Int("places", 0, 3))
+	want := []string{"1,235", "1,234.6", "1,234.57", "1,234.568"}[places]
+	call := `FIXED(1234.5678, ` + strconv.Itoa(places)
+	switch zzverif.Choice("no-commas-argument", 3) {
+	case 0:
+		zzverif.Cover("flag-absent")
+	case 1:
+		call += ", TRUE"
+		want = want[:1] + want[2:] // without the separator
+		zzverif.Cover("no-commas")
+	default:
+		call += ", FALSE"
+		zzverif.Cover("with-commas")
+	}
+	call += ")"
+	zzverif.Known("C17-fixed-no-commas-inverted", !strings.HasSuffix(call, strconv.Itoa(places)+")"))
+	migrated, err := MigrateTemplate(`@(`+call+`)`, nil)
+	zzverif.Assert(err == nil, "a legacy template with a FIXED call could not be migrated")
+	out, _, everr := excellent.NewEvaluator().Template(envs.NewBuilder().Build(), types.NewXObject(map[string]types.XValue{}), migrated, nil)
+	zzverif.Note(call, " migrates to ", migrated, " = ", out)
+	zzverif.Assert(everr == nil && out == want, "the migrated FIXED call does not evaluate to the text the legacy call denotes")
 }
